@@ -25,24 +25,30 @@ class Mod:
         self.cls = {"G1": self.FQ, "G2": self.FQ2, "G12": self.FQ12}
         self.bcoef = {"G1": self.m.b, "G2": self.m.b2, "G12": self.m.b12}
 
-    def el(self, g, v):
-        return self.FQ(v) if g == "G1" else self.cls[g](list(v))
+    def el(self, g, v, fq_coeffs=False):
+        """fq_coeffs: build extension elements from base-field OBJECTS instead of ints (the constructors
+        accept Sequence[IntOrFQ]; the two forms denote the same element)."""
+        if g == "G1":
+            return self.FQ(v)
+        if fq_coeffs:
+            return self.cls[g]([self.FQ(c) for c in v])
+        return self.cls[g](list(v))
 
-    def pt(self, g, P, scale=None, inf_rep=None):
+    def pt(self, g, P, scale=None, inf_rep=None, fq_coeffs=False):
         """Model point -> library point.  For optimized modules `scale` (a model field element,
         non-zero) multiplies all three coordinates; `inf_rep` picks a representative of infinity
         as a triple of model values."""
         if not self.opt:
             if P is None:
                 return None
-            return (self.el(g, P[0]), self.el(g, P[1]))
+            return (self.el(g, P[0], fq_coeffs), self.el(g, P[1], fq_coeffs))
         F = self.C.group(g)[0]
         if P is None:
             if inf_rep is None:
                 return (self.cls[g].one(), self.cls[g].one(), self.cls[g].zero())
             return tuple(self.el(g, v) for v in inf_rep)
         s = F.one if scale is None else scale
-        return (self.el(g, F.mul(P[0], s)), self.el(g, F.mul(P[1], s)), self.el(g, s))
+        return (self.el(g, F.mul(P[0], s), fq_coeffs), self.el(g, F.mul(P[1], s), fq_coeffs), self.el(g, s, fq_coeffs))
 
     def back(self, g, pt):
         """Library point -> model point (None = infinity)."""
